@@ -409,6 +409,30 @@ func TestC12(t *testing.T) {
 		case 1:
 			c.C = c.B
 		}
+		// relations between the whites: a shared x or y, equal luminances, one luminance a power-of-two multiple of
+		// another, chromaticities a few ulps or 1e-6..1e-3 apart (shortcuts keyed on "same" or "nearly same")
+		ws := []*XY{&c.A, &c.B, &c.C}
+		for k := rapid.IntRange(0, 2).Draw(rt, "nrelations"); k > 0; k-- {
+			i, j := rapid.IntRange(0, 2).Draw(rt, "reli"), rapid.IntRange(0, 2).Draw(rt, "relj")
+			switch rapid.IntRange(0, 5).Draw(rt, "relation") {
+			case 0:
+				ws[i][0] = ws[j][0]
+			case 1:
+				ws[i][1] = ws[j][1]
+			case 2:
+				c.L[i] = c.lum(j)
+			case 3:
+				c.L[i] = c.lum(j) * float32(math.Pow(2, float64(rapid.IntRange(-3, 3).Draw(rt, "pow2"))))
+			case 4:
+				*ws[i] = *ws[j]
+				ax := rapid.IntRange(0, 1).Draw(rt, "nearaxis")
+				ws[i][ax] = math.Float32frombits(math.Float32bits(ws[j][ax]) + uint32(rapid.IntRange(1, 4).Draw(rt, "ulps")))
+			default:
+				*ws[i] = *ws[j]
+				d := float32(math.Pow(10, rapid.Float64Range(-6.5, -3).Draw(rt, "nearexp")))
+				ws[i][rapid.IntRange(0, 1).Draw(rt, "nearaxis2")] += d
+			}
+		}
 		for i := range c.V {
 			c.V[i] = rapid.Float32Range(-0.5, 2).Draw(rt, "v")
 		}
